@@ -164,6 +164,8 @@ DateStep(e) ==
     [] e.op = "date.add"      -> UNCHANGED dvars /\ Note(AddDemands(e)) /\ UNCHANGED ctx
     [] e.op = "date.adddur"   -> UNCHANGED dvars /\ Note(AddDurDemands(e)) /\ UNCHANGED ctx
     [] e.op = "date.time"     -> UNCHANGED dvars /\ Note(TimeDemands(e)) /\ UNCHANGED ctx
+    [] e.op = "date.today"    -> UNCHANGED dvars /\ UNCHANGED ctx
+                                 /\ Note(<< <<"X.today", e.r = e.before \/ e.r = e.after>> >>)   \* the local calendar date, read between two clock readings
     [] e.op = "date.fromtime" -> UNCHANGED dvars /\ Note(FromTimeDemands(e)) /\ UNCHANGED ctx
     [] e.op = "date.freset" ->
          /\ dFilt' = <<>> /\ dVars' = [from |-> NoDate, to |-> NoDate] /\ dRet' = [k |-> "unit"]
@@ -181,7 +183,7 @@ DateStep(e) ==
     [] e.op = "date.fcontains" ->
          DateFilterContains(e.i, Dt(e.p)) /\ Note(FContainsDemands(e, dRet')) /\ UNCHANGED ctx
 
-IsDateOp(e) == e.op \in {"date.utext", "date.set", "date.rt", "date.parse", "date.unbin", "date.bin", "date.cmp",
+IsDateOp(e) == e.op \in {"date.today", "date.utext", "date.set", "date.rt", "date.parse", "date.unbin", "date.bin", "date.cmp",
                           "date.add", "date.adddur", "date.time", "date.fromtime", "date.freset",
                           "date.vars", "date.fbuild", "date.fcontains"}
 
